@@ -175,6 +175,7 @@ func sqlLit(v interface{}) (string, bool) {
 }
 
 func runFilterCase(e *Env, c *jFilterCase) error {
+	e.Running(c)
 	dir := tempDir()
 	defer rmDir(dir)
 	t := &c.Table
